@@ -18,6 +18,14 @@ output directories — by a new `API` object (a second CLI run) or by the same c
 the constants found on disk afterwards are extracted, evaluated and judged by `c08.spec` against the *edited*
 declaration, exactly as for a fresh directory (keys `regenerate:…`). Most of these edits leave the rendered length
 of every file unchanged.
+History stream: the generator instances belong to the `API` object and are shared by every configuration made on it, so
+the constants of one project must not depend on what the same `API` object did before or in between. Histories
+(`history_specs`) run several *projects* (own IDL file, own output root — plain `out` directories or split
+`out: {header, source}` ones —, own identifier styles; the later projects declare the same type names as the first with
+the items edited by `edit_decl`) through one `API` object in every order of `HISTORY_ORDERS` (one after the other,
+configure/parse of all before any generate, per-target interleaving, back to the first project after an edit, three
+projects); afterwards the tree of *every* project is read from disk and each declaration is judged by `c08.spec`
+against the declaration of its own project (keys `history:…`).
 Judges (validation of the extraction and of `EnumEval`, never the verdict): a model-derived `static_assert`
 translation unit compiled with g++ against the generated C++ headers (constants + the bit operators) and the
 transplanted C++/CLI enum bodies, random enumerator lists with references for `EnumEval` itself, the ObjC headers with
@@ -217,7 +225,7 @@ def corpus_programs():
     f = Path(__file__).resolve().parent.parent.parent / "corpus" / "c08.json"
     if not f.exists():
         return []
-    return [{"decls": e["decls"], "styles": e.get("styles", {}), "corpus": e.get("name")} for e in json.loads(f.read_text()) if "before" not in e]
+    return [{"decls": e["decls"], "styles": e.get("styles", {}), "corpus": e.get("name")} for e in json.loads(f.read_text()) if "before" not in e and "history" not in e]
 
 
 def corpus_regen():
@@ -226,6 +234,14 @@ def corpus_regen():
     if not f.exists():
         return []
     return [e for e in json.loads(f.read_text()) if "before" in e]
+
+
+def corpus_histories():
+    """corpus entries of the history class: {"history": {"order", "projects": {name: {"versions", "styles", "split_out"}}}}"""
+    f = Path(__file__).resolve().parent.parent.parent / "corpus" / "c08.json"
+    if not f.exists():
+        return []
+    return [{**e["history"], "steps": HISTORY_ORDERS[e["history"]["order"]]} for e in json.loads(f.read_text()) if "history" in e]
 
 
 # ---------------------------------------------------------------------------------------------
@@ -403,10 +419,7 @@ def regenerate_many(base: Path, jobs):
     with mp.get_context("fork").Pool(max(1, min(12, len(args)))) as pool:
         results = pool.map(regen_worker, args, chunksize=1)
     for res in results:
-        for info in res["decls"]:
-            tn = info.get("type_names", {})
-            key = {"cpp": tn.get("cpp"), "java": tn.get("java"), "jni": tn.get("jni"), "objc": tn.get("objc"), "objcpp": tn.get("objc"), "cppcli": tn.get("cppcli")}
-            info["files"] = {sub: {p: t for p, t in files.items() if key[sub] and key[sub] in t} for sub, files in res["tree"].items()}
+        attach_files(res)
     return results
 
 
@@ -428,6 +441,167 @@ def regen_programs(ctx, programs):
             kinds.append(kind)
         out.append((p, {"decls": edited, "styles": p["styles"], "edits": kinds, "before": p["decls"]}, k % 2 == 1))
     return out
+
+
+# ---------------------------------------------------------------------------------------------
+# histories: several projects on one API object
+# ---------------------------------------------------------------------------------------------
+
+SUBDIRS = ("cpp", "java", "jni", "objc", "objcpp", "cppcli")
+
+
+def attach_files(res):
+    """every declaration sees the files on disk (of its own project's tree) that mention its type"""
+    for info in res["decls"]:
+        tn = info.get("type_names", {})
+        key = {"cpp": tn.get("cpp"), "java": tn.get("java"), "jni": tn.get("jni"), "objc": tn.get("objc"), "objcpp": tn.get("objc"), "cppcli": tn.get("cppcli")}
+        info["files"] = {sub: {p: t for p, t in files.items() if key[sub] and key[sub] in t} for sub, files in res["tree"].items()}
+    return res
+
+
+def decl_infos(gctx, errors):
+    from pydjinni.parser.ast import Enum, Flags
+    decls = []
+    for d in gctx.defs:
+        info = {"name": str(d.name), "kind": type(d).__name__.lower(), "errors": dict(errors), "names": {}}
+        if isinstance(d, (Enum, Flags)):
+            items = d.items if isinstance(d, Enum) else d.flags
+            info["names"] = {"cpp": [str(i.cpp.name) for i in items], "java": [str(i.java.name) for i in items],
+                             "objc": [str(i.objc.name) for i in items], "cppcli": [str(i.cppcli.name) for i in items]}
+            info["type_names"] = {"cpp": str(d.cpp.name), "java": str(d.java.name), "objc": str(d.objc.name),
+                                  "cppcli": str(d.cppcli.name), "jni": str(d.jni.name), "cpp_typename": str(d.cpp.typename)}
+        decls.append(info)
+    return decls
+
+
+HISTORY_ORDERS = {
+    # [op, project(, targets)] — `edit` makes the project's next program version current (written by the next `parse`)
+    "sequential": [["configure", "A"], ["parse", "A"], ["generate", "A"], ["configure", "B"], ["parse", "B"], ["generate", "B"]],
+    "parse-all-first": [["configure", "A"], ["parse", "A"], ["configure", "B"], ["parse", "B"], ["generate", "A"], ["generate", "B"]],
+    "configure-all-first": [["configure", "A"], ["configure", "B"], ["parse", "A"], ["parse", "B"], ["generate", "B"], ["generate", "A"]],
+    "by-target": [["configure", "A"], ["parse", "A"], ["configure", "B"], ["parse", "B"]]
+                 + [["generate", p, [t]] for t in glue.TARGETS for p in ("A", "B")],
+    "return-after-edit": [["configure", "A"], ["parse", "A"], ["generate", "A"], ["configure", "B"], ["parse", "B"], ["generate", "B"],
+                          ["edit", "A"], ["parse", "A"], ["generate", "A"]],
+    "reconfigure-return": [["configure", "A"], ["parse", "A"], ["generate", "A"], ["configure", "B"], ["parse", "B"], ["generate", "B"],
+                           ["edit", "A"], ["configure", "A"], ["parse", "A"], ["generate", "A"]],
+    "three-projects": [["configure", "A"], ["parse", "A"], ["generate", "A"], ["configure", "B"], ["parse", "B"], ["generate", "B"],
+                       ["configure", "C"], ["parse", "C"], ["generate", "C"]],
+}
+
+
+def history_options(root: Path, proj: dict) -> dict:
+    """options of one project: its own output root; `split_out`: the C-family targets get `out: {header, source}`"""
+    opts = options_for(root / "out", proj.get("styles", {}))
+    if proj.get("split_out"):
+        for t in ("cpp", "jni", "objc", "objcpp", "cppcli"):
+            o = opts["generate"][t]["out"]
+            opts["generate"][t]["out"] = {"header": o + "/include", "source": o + "/src"}
+    return opts
+
+
+def history_worker(args):
+    """runs one history on ONE `API` object; returns per project the tree on disk at the end and the names the real
+    marshalling objects of its last parse give"""
+    workdir, hist = args
+    import os
+    import traceback
+    from pydjinni import API
+    workdir = Path(workdir)
+    workdir.mkdir(parents=True, exist_ok=True)
+    cwd = os.getcwd()
+    os.chdir(workdir)
+    out = {}
+    try:
+        api = API()
+        cctx, gctx, version, errors, infos = {}, {}, {}, {}, {}
+        for step in hist["steps"]:
+            op, pn = step[0], step[1]
+            proj = hist["projects"][pn]
+            root = workdir / pn
+            root.mkdir(exist_ok=True)
+            if op == "configure":
+                cctx[pn] = api.configure(options=history_options(root, proj))
+            elif op == "edit":
+                version[pn] = version.get(pn, 0) + 1
+            elif op == "parse":
+                (root / "m.djinni").write_text(render(proj["versions"][version.get(pn, 0)]))
+                gctx[pn] = cctx[pn].parse(root / "m.djinni")
+                errors[pn] = {}
+            elif op == "generate":
+                for t in (step[2] if len(step) > 2 else glue.TARGETS):
+                    try:
+                        gctx[pn].generate(t)
+                    except Exception as e:
+                        errors[pn][t] = type(e).__name__ + ": " + str(e)[:160]
+                infos[pn] = decl_infos(gctx[pn], errors[pn])
+        for pn in hist["projects"]:
+            tree = {sub: glue.snapshot(workdir / pn / "out" / sub) for sub in SUBDIRS}
+            out[pn] = attach_files({"parse": "ok", "decls": infos.get(pn, []), "tree": tree})
+            del out[pn]["tree"]
+        return out
+    except Exception:
+        return {pn: {"parse": "harness-error", "diags": [traceback.format_exc()[-1500:]], "decls": []} for pn in hist["projects"]}
+    finally:
+        os.chdir(cwd)
+
+
+def history_many(base: Path, hists):
+    import multiprocessing as mp
+    import pydjinni  # noqa: F401
+    args = [(str(base / f"h{i}"), h) for i, h in enumerate(hists)]
+    if not args:
+        return []
+    with mp.get_context("fork").Pool(max(1, min(12, len(args)))) as pool:
+        return pool.map(history_worker, args, chunksize=1)
+
+
+def final_version(hist, pn):
+    return hist["projects"][pn]["versions"][sum(1 for s in hist["steps"] if s[0] == "edit" and s[1] == pn)]
+
+
+def restrict_history(hist, name):
+    """the same history with only the declaration `name` in every project version (replay input)"""
+    return {**hist, "projects": {pn: {**pr, "versions": [[d for d in v if d["name"] == name] for v in pr["versions"]]} for pn, pr in hist["projects"].items()}}
+
+
+def history_specs(ctx, programs):
+    """one history per order (thorough: several): project A is one of the random programs, every further project
+    declares the same type names with one edit per declaration (so equally named files of two projects differ in the
+    values their constants must have), its own styles and its own kind of `out` configuration"""
+    r = random.Random(f"{ctx.seed}/c08/history")
+    pool = [p for p in programs if not p.get("corpus") and not any(d["name"].startswith("h1") for d in p["decls"])]
+    r.shuffle(pool)
+    out = corpus_histories()
+    for k in range(ctx.n(1, 4) * len(HISTORY_ORDERS)):
+        order = list(HISTORY_ORDERS)[k % len(HISTORY_ORDERS)]
+        steps = HISTORY_ORDERS[order]
+        base = pool[k % len(pool)]
+        decls = base["decls"][: ctx.n(10, 25)]
+        projects = {}
+        prev = decls
+        for pn in dict.fromkeys(s[1] for s in steps):
+            n_versions = 1 + sum(1 for s in steps if s[0] == "edit" and s[1] == pn)
+            versions = []
+            for _ in range(n_versions):
+                prev = [edit_decl(r, d)[0] for d in prev] if (projects or versions) else prev
+                versions.append(prev)
+            styles = dict(base["styles"]) if (pn == "A" or r.random() < 0.5) else {t: r.choice(STYLES) for t in ("cpp", "java", "objc", "cppcli") if r.random() < 0.6}
+            projects[pn] = {"versions": versions, "styles": styles, "split_out": r.random() < 0.4}
+        out.append({"order": order, "steps": steps, "projects": projects})
+    return out
+
+
+def evaluate_histories(ctx, hists):
+    results = history_many(ctx.tmp / "hist", hists)
+    programs, pre = [], []
+    for hist, res in zip(hists, results):
+        for pn in hist["projects"]:
+            programs.append({"decls": final_version(hist, pn), "styles": hist["projects"][pn]["styles"]})
+            pre.append({"result": res[pn], "history": hist, "project": pn})
+            ctx.stat("history_order_" + hist["order"])
+            ctx.stat("history_projects")
+    return evaluate_programs(ctx, programs, judges=False, pre=pre)
 
 
 # ---------------------------------------------------------------------------------------------
@@ -605,12 +779,17 @@ def shape_of(decl):
     return decl["kind"] + ":" + "".join("a" if i["all"] else "n" if i["none"] else "o" for i in decl["items"])
 
 
-def evaluate_programs(ctx, programs, judges=True, regen=None):
+def evaluate_programs(ctx, programs, judges=True, regen=None, pre=None):
     """`regen`: [(original program, same_context)] aligned with `programs` (the edited ones): the observation is the tree
-    on disk after original -> edit -> second run; keys get the prefix `regenerate:`"""
+    on disk after original -> edit -> second run; keys get the prefix `regenerate:`.
+    `pre`: [{"result", "history", "project"}] aligned with `programs` (the final program version of one project of a
+    history): the observation is that project's tree on disk after the whole history; keys get the prefix `history:`"""
     jobs = []
-    tag = "regenerate:" if regen is not None else ""
-    if regen is None:
+    tag = "regenerate:" if regen is not None else "history:" if pre is not None else ""
+    if pre is not None:
+        jobs = [(render(p["decls"]), None) for p in programs]
+        results = [e["result"] for e in pre]
+    elif regen is None:
         for pi, p in enumerate(programs):
             jobs.append((render(p["decls"]), options_for(ctx.tmp / f"p{pi}" / "out", p["styles"])))
         results = glue.generate_many(ctx.tmp, jobs)
@@ -655,6 +834,10 @@ def evaluate_programs(ctx, programs, judges=True, regen=None):
                           sample={"before": render([p["before"][di]]), "after": render([decl]), "edit": edit, "cpp": obs.get("cpp")})
                 ctx.stat("regenerate_edit_" + edit)
                 ctx.stat("regenerate_" + ("same_context" if regen[pi][1] else "new_api_object"))
+            elif pre is not None:
+                h = pre[pi]["history"]
+                ctx.count(key=("history", h["order"], pre[pi]["project"], sh, bool(p["styles"]), bool(h["projects"][pre[pi]["project"]].get("split_out"))),
+                          nontrivial=len(decl["items"]) > 1, sample={"order": h["order"], "project": pre[pi]["project"], "idl": render([decl]), "cpp": obs.get("cpp")})
             else:
                 ctx.count(key=(sh, bool(p["styles"])), nontrivial=len(decl["items"]) > 0,
                           sample={"idl": render([decl]), "cpp": obs.get("cpp"), "java": obs.get("java")})
@@ -685,8 +868,17 @@ def evaluate_programs(ctx, programs, judges=True, regen=None):
                     if obs.get(f["target"]) is None and f["target"] in info["errors"]:
                         key = f"{decl['kind']}:{f['target']}:generation-failed"
                     extra = {} if regen is None else {"before": [p["before"][di]], "same_context": regen[pi][1]}
-                    ctx.report(tag + key, f"{f['target']}: {f['why']}" + ("" if regen is None else
-                               f" — in the files on disk after generating, editing the declaration ({p['edits'][di]}) and generating again into the same directory"),
+                    where = "" if regen is None else f" — in the files on disk after generating, editing the declaration ({p['edits'][di]}) and generating again into the same directory"
+                    if pre is not None:
+                        extra = {"history": restrict_history(pre[pi]["history"], decl["name"]), "project": pre[pi]["project"]}
+                        where = (f" — in the output tree of project {pre[pi]['project']} after the history '{pre[pi]['history']['order']}' "
+                                 f"({' / '.join(' '.join(map(str, st[:2])) for st in pre[pi]['history']['steps'])}) on one API object")
+                    if pre is not None:      # one stale directory shows in every declaration: three replays per shape are enough
+                        seen = ctx.stats.setdefault("history_reported_by_key", {})
+                        seen[tag + key] = seen.get(tag + key, 0) + 1
+                        if seen[tag + key] > 3:
+                            continue
+                    ctx.report(tag + key, f"{f['target']}: {f['why']}" + where,
                                {"input": {"decls": [decl], "styles": p["styles"], **extra}, "idl": render([decl]), "failure": f, "clauses": s["clauses"],
                                 "impl": obs, "notes": {k: v for k, v in notes.items()}, "expected": m["spec"]})
             cases.append((decl, info, m, notes))
@@ -725,7 +917,8 @@ def run(ctx):
     ctx.coverage["rule"] = ("enums with 0..8 items and flags with none/all in every position and multiplicity (exhaustive to length 4 quick / 5 thorough, "
                             "random to length 8), commented/deprecated items incl. every comment-syntax hazard text (backslash runs at line end, before uXXXX, comment closers) on non-final items, identifier styles; distinct = distinct (kind, none/all shape, styled?); "
                             "non-trivial = at least one item; every declaration is observed in cpp, objc, cppcli, java and jni; regeneration stream: distinct = distinct (edit, shape, styled?), "
-                            "non-trivial = the edit changes the item list")
+                            "non-trivial = the edit changes the item list; history stream: every order of HISTORY_ORDERS with 2-3 projects (equal type names, edited item lists, own out roots, "
+                            "plain or split header/source dirs) on one API object, every project's tree judged against its own declarations; distinct = distinct (order, project, shape, styled?, split?)")
     ctx.assumptions += [
         "at most 32 ordinary flags (1u << 32 is outside the model's unbounded naturals; generator uses <= 8 items)",
         "C++/CLI has no compiler here: its enum bodies are evaluated by the extractor and transplanted into a g++ translation unit",
@@ -738,6 +931,12 @@ def run(ctx):
     breaks += [{**b, "stream": "regenerate"} for b in
                evaluate_programs(ctx, [e for _, e, _ in rp], judges=False, regen=[(o, same) for o, _, same in rp])]
     ctx.stats["regenerate_programs"] = len(rp)
+    import time
+    t0 = time.time()
+    hs = history_specs(ctx, programs)
+    breaks += [{**b, "stream": "history"} for b in evaluate_histories(ctx, hs)]
+    ctx.stats["histories"] = len(hs)
+    ctx.stats["t_histories_s"] = round(time.time() - t0, 1)
     validate_enumeval(ctx)
     ctx.stats["correspondence_breaks"] = len(breaks)
     ctx.stats["programs"] = len(programs)
@@ -752,7 +951,9 @@ def run(ctx):
 def replay(ctx, body):
     inp = body["input"]
     before = len(ctx.violations) + sum(ctx.known_hits.values())
-    if "before" in inp:
+    if "history" in inp:
+        breaks = evaluate_histories(ctx, [inp["history"]])
+    elif "before" in inp:
         breaks = evaluate_programs(ctx, [{"decls": inp["decls"], "styles": inp.get("styles", {}), "edits": ["replay"], "before": inp["before"]}], judges=False,
                                    regen=[({"decls": inp["before"], "styles": inp.get("styles", {})}, bool(inp.get("same_context")))])
     else:
